@@ -23,6 +23,7 @@ __all__ = (
     "AbstractMarshaller",
     "ContextT",
     "BytesMarshaller",
+    "NoneTypeMarshaller",
     "StringMarshaller",
     "IntegerMarshaller",
     "FloatMarshaller",
@@ -109,6 +110,23 @@ class NoOpMarshaller(AbstractMarshaller[T], tp.Generic[T]):
 
 
 BytesMarshaller = NoOpMarshaller[bytes]
+
+
+class NoneTypeMarshaller(AbstractMarshaller[None]):
+    """A marshaller for `None`: passes `None` through and rejects everything else."""
+
+    def __call__(self, val: None) -> None:
+        """Marshal `None`.
+
+        Args:
+            val: The value to marshal.
+
+        Raises:
+            ValueError: If `val` is not `None`.
+        """
+        if val is not None:
+            raise ValueError(f"{val!r} is not None")
+        return None
 
 
 class CastMarshaller(AbstractMarshaller[T], tp.Generic[T]):
